@@ -29,6 +29,11 @@ class C04(HistProp):
         hs += refused_growth_histories()
         # cbor_copy / cbor_load / tag building under every single-fault and fail-stop schedule, then the client drops everything: whatever a
         # clean-up path did with the counts, nothing may remain allocated (the scenarios of C06, judged here by the end state only)
+        # loads refused at the nesting limit (one level too deep, every opener kind), and accepted just below it, then everything dropped
+        for opener in (b'\x81', b'\xc2', b'\x9f', b'\xa1\x00', b'\xbf\x00'):
+            for d in (2048, 2049):
+                l = ['HRESET', 'H load 0 ' + (opener * d + b'\x00').hex(), 'H drop 0']
+                hs.append((l, [None] * len(l)))
         from .C06 import C06
         for l, e in C06().histories(tier, core.Rng('C04-faulted')):
             if any(x.startswith(('H copy', 'H load', 'H btag')) for x in l): hs.append((l, e))
